@@ -731,7 +731,7 @@ def lock_shapes():
     A(P("handover-chain", SJ(3) + JJ(3), CS("m", wr("c"), st("x", 1)), CS("m", ld("x"), wr("c")), CS("m", ld("x"), rd("c"))))
     # the protected value: through the guard, get_mut and into_inner
     A(P("mutex-value", SJ(2) + JJ(2) + [L("mgetmut", "m"), L("minto", "m")], CS("m", L("mget", "m"), L("mset", "m", v=1)), CS("m", L("mget", "m"), L("mset", "m", v=2))))
-    A(P("mutex-value-try", SJ(2) + JJ(2) + [L("minto", "m")], CS("m", L("mset", "m", v=1), ld("x")),
+    A(P("mutex-value-try", SJ(2) + JJ(2) + [L("minto", "m")], CS("m", L("mset", "m", v=1), I("yield")),
         [L("trylock", "m"), br(1, 1, 3), L("mget", "m"), L("mset", "m", v=2), L("unlock", "m")]))
     A(P("rw-value", SJ(3) + JJ(3) + [L("rwgetmut", "l"), L("rwinto", "l")], [L("write", "l"), L("rwget", "l"), L("rwset", "l", v=1), L("unlockw", "l")],
         [L("read", "l"), L("rwget", "l"), L("unlockr", "l")], [L("write", "l"), L("rwset", "l", v=2), L("unlockw", "l")]))
